@@ -102,6 +102,69 @@ PARAM_DEFAULTS = {"dict_enum_key": lambda: {Color.RED: 1}, "dict_evil_key": lamb
                   "evil": EvilRepr, "list": lambda: [1], "obj": object, "nan": lambda: float("nan"), "type": lambda: int,
                   "tuple_evil": lambda: (EvilRepr(),)}
 
+class EvilReprStrConst(str):
+    def __repr__(self):
+        return "__import__('vkit_canary').hit('constant repr evaluated') or 'forged'"
+
+
+class EvilReprInt(int):
+    def __repr__(self):
+        return "__import__('vkit_canary').hit('constant repr evaluated') or 0"
+
+
+class EvilReprBytes(bytes):
+    def __repr__(self):
+        return "__import__('vkit_canary').hit('constant repr evaluated') or b''"
+
+
+class IntColor(enum.IntEnum):
+    RED = 1
+
+
+class StrColor(str, enum.Enum):
+    RED = "red"
+
+
+class Perm(enum.IntFlag):
+    R = 1
+    W = 2
+
+
+# scalar constants given to link_constant(value=...): values with a literal form, their look-alikes of other classes
+# (subclass instances, mixin enum members: repr is not a literal of the value), and values without any literal form
+SCALAR_CONSTANTS = {
+    "str_quotes": lambda: "a'b\"c\n\\", "str_braces": lambda: "{x}${y}%s", "bytes": lambda: b"\x00'\"", "none": lambda: None,
+    "true": lambda: True, "int_huge": lambda: 10 ** 5000, "int_neg": lambda: -7, "float_nan": lambda: float("nan"),
+    "float_inf": lambda: float("-inf"), "float_negzero": lambda: -0.0, "complex": lambda: complex(0.0, -1.5),
+    "ellipsis": lambda: ..., "notimplemented": lambda: NotImplemented,
+    "evil_str": lambda: EvilReprStrConst("payload"), "evil_int": lambda: EvilReprInt(5), "evil_bytes": lambda: EvilReprBytes(b"x"),
+    "plain_sub_str": lambda: PlainSubStr("k"), "int_enum": lambda: IntColor.RED, "str_enum": lambda: StrColor.RED,
+    "int_flag": lambda: Perm.R | Perm.W, "plain_enum": lambda: Color.RED,
+    "tuple_mixed": lambda: (1, "a", IntColor.RED, EvilReprStrConst("t")), "frozenset_enum": lambda: frozenset({StrColor.RED}),
+    "range": lambda: range(3), "type": lambda: dict, "bytearray": lambda: bytearray(b"ab"),
+}
+
+
+def same_constant(got, want) -> bool:
+    """The destination holds the constant itself, or - for a value with a literal form - an equal value of exactly the same
+    type (element-wise for tuples / frozensets); NaN equals NaN, -0.0 keeps its sign."""
+    if got is want:
+        return True
+    if type(got) is not type(want):
+        return False
+    if isinstance(want, float):
+        return repr(got) == repr(want)
+    if isinstance(want, complex):
+        return repr(got) == repr(want)
+    if isinstance(want, tuple):
+        return len(got) == len(want) and all(same_constant(a, b) for a, b in zip(got, want))
+    if isinstance(want, frozenset):
+        return len(got) == len(want) and all(any(same_constant(a, b) for b in want) for a in got)
+    if type(want) in (str, bytes, int, bool, range, bytearray):   # adaptix may rebuild these from a literal expression
+        return got == want
+    return False
+
+
 _uid = itertools.count()
 
 
@@ -143,7 +206,8 @@ def st_case(draw):
         case["link_funcs"] = draw(st.lists(st.sampled_from(LINK_FUNC_NAMES), max_size=3)) if draw(st.booleans()) else []
         # how each extra destination field is filled: a named function, a callable without __name__ (gets a numbered generated
         # name), a constant without literal form (numbered name too), a dict constant with non-primitive keys
-        case["link_kinds"] = [draw(st.sampled_from(["named", "named", "partial", "constant_obj", "constant_dict"]))
+        case["link_kinds"] = [draw(st.sampled_from(["named", "named", "partial", "constant_obj", "constant_dict",
+                                                    *[f"scalar:{k}" for k in sorted(SCALAR_CONSTANTS)]]))
                               for _ in case["link_funcs"]]
         case["nested_same_name"] = draw(st.integers(0, 3)) == 0
         case["conv_name"] = draw(st.sampled_from([None, None, *CONV_NAMES]))
@@ -421,6 +485,7 @@ def check_case(ctx: runner.Ctx, case):  # noqa: C901, PLR0912, PLR0915
         conv_recipe = []
         src_extra, dst_extra = [], []
         lf_markers = {}
+        scalar_fids = set()
         if nested_same:
             inner_src = dataclasses.make_dataclass(f"C19I{next(_uid)}", [("v", typing.Any)])
             inner_dst = dataclasses.make_dataclass(f"C19I{next(_uid)}D", [("v", typing.Any)])
@@ -448,8 +513,11 @@ def check_case(ctx: runner.Ctx, case):  # noqa: C901, PLR0912, PLR0915
             marker = ("linked", fid, object())
             if lk == "constant_dict":
                 marker = {Color.RED: marker, EvilRepr(): 1}
+            if lk.startswith("scalar:"):
+                marker = SCALAR_CONSTANTS[lk.split(":", 1)[1]]()
+                scalar_fids.add(fid)
             lf_markers[fid] = marker
-            if lk in ("constant_obj", "constant_dict"):
+            if lk in ("constant_obj", "constant_dict") or lk.startswith("scalar:"):
                 conv_recipe.append(link_constant(P[dst][fid], value=marker))
                 continue
             if lk == "partial":
@@ -524,6 +592,12 @@ def check_case(ctx: runner.Ctx, case):  # noqa: C901, PLR0912, PLR0915
                 if get(res, f["id"]) is not values[f["id"]]:
                     viol("field_not_copied", (kind,), f"field {f['id']!r}: {get(res, f['id'])!r}")
             for fid, marker in lf_markers.items():
+                if fid in scalar_fids:
+                    if not same_constant(get(res, fid), marker):
+                        viol("link_constant_value_changed", (type(marker).__name__,),
+                             f"field {fid!r} must hold the constant {str.__repr__(marker) if isinstance(marker, str) else type(marker).__name__}"
+                             f" of {type(marker).__name__}: got {type(get(res, fid)).__name__}")
+                    continue
                 if get(res, fid) is not marker and not (isinstance(marker, dict) and tspec_canon_eq(get(res, fid), marker)):
                     viol("link_function_result_misplaced", (kind,),
                          f"field {fid!r} must hold the result of its link_function (functions named {link_funcs!r}): "
